@@ -1,21 +1,22 @@
 #!/bin/sh
 # usage: seedverify.sh Cnn  — verify both seeded changes of one property in its scratch worktree /tmp/mut/Cnn
 P=$1
-W=/tmp/mut/$P
+B=${MUTBASE:-/tmp/mut}
+W=$B/$P
 export CARGO_NET_OFFLINE=true
 for k in m1 m2; do
-  D=/tmp/mut/$P.out/$k
+  D=$B/$P.out/$k
   [ -f $D/patch.diff ] || { echo "$P $k: no patch"; continue; }
   cd $W && git checkout -q -- . && git clean -fdq -e target
   # demo on the clean tree
   cp $D/demo.rs tests/demo_$k.rs
   extra=""; grep -q -- "--release" $D/meta.json && extra="--release"
-  cargo test --offline $extra --test demo_$k >/tmp/mut/$P.out/$k/clean.log 2>&1; c0=$?
+  cargo test --offline $extra --test demo_$k >$B/$P.out/$k/clean.log 2>&1; c0=$?
   git apply $D/patch.diff || { echo "$P $k: patch does not apply"; rm -f tests/demo_$k.rs; continue; }
-  cargo test --offline $extra --test demo_$k >/tmp/mut/$P.out/$k/mut.log 2>&1; c1=$?
+  cargo test --offline $extra --test demo_$k >$B/$P.out/$k/mut.log 2>&1; c1=$?
   rm -f tests/demo_$k.rs
-  cargo test --workspace --no-fail-fast --offline >/tmp/mut/$P.out/$k/suite.log 2>&1; c2=$?
-  np=$(grep -E "^test result: ok" /tmp/mut/$P.out/$k/suite.log | awk '{s+=$4} END {print s}')
+  cargo test --workspace --no-fail-fast --offline >$B/$P.out/$k/suite.log 2>&1; c2=$?
+  np=$(grep -E "^test result: ok" $B/$P.out/$k/suite.log | awk '{s+=$4} END {print s}')
   echo "$P $k: demo_clean_rc=$c0 demo_mut_rc=$c1 suite_rc=$c2 suite_passed=$np release=$extra"
   git checkout -q -- . && git clean -fdq -e target
 done
